@@ -248,7 +248,7 @@ def joint_entries():
                           "coordscale": 1})
         for e in calls:
             e.update({"eff": e["c"], "dtype": "float64", "backend": "dask", "layout": "C", "seed": 0, "finite": True,
-                      "hw": None, "group": "joint", "cost": 1.0, "keep_lazy": True})
+                      "hw": None, "group": "joint", "cost": 1.0, "keep_lazy": True, "caller_writes": False})
         out += calls
         # the joint step: the last call again, computed together with the others
         last = dict(calls[-1], joint=[e["c"] for e in calls[:-1]])
